@@ -62,3 +62,8 @@ CHECKS["C16"] = ("exploration",
   "Each of the 21 template constructors is drawn with parameters from the ranges its constructor and the documented operator contracts accept, on small real / binary / permutation / TSP instances (dimension 1 included), for 0-25 iterations and random seeds, and run through optimize_with with the step observer attached: the run must return Ok, perform exactly the requested number of iterations (counter and observed passes), end every pass of the main loop with the stack at its initial height (1 at the end of the run) and keep the population size within the template's rule.",
   "Hook: step observer (feature mahf_verif) and the ACO parameter constructors. The main loop is identified as the first Loop whose body executes.",
   "DESIGN.md §6 C16")
+CHECKS["C05"] = ("exploration",
+  "model-based histories on individuals (exhaustive + proptest) against an evaluated-flag model; invariant audit of every individual in the state after every component step of every template run (step observer) and after 34 single components on prepared populations",
+  "Individual-level operation histories are enumerated to a length bound and generated randomly, with is_evaluated / get_objective / objective() / solution probed after every step against a model. For runs, the step observer audits after EVERY component execution of every one of the 21 templates (random valid parameters, instances, seeds) that each evaluated individual reachable in any scope - population stack, best-so-far, elitist archive, swarm and molecule memories - carries bit-exactly f(solution) of the harness objective.",
+  "Hook: step observer. The harness objective is a pure function recomputed by the oracle.",
+  "DESIGN.md §6 C05")
